@@ -42,7 +42,9 @@ pub fn nums_of(b: &[u8]) -> Vec<u64> {
 fn main() {
     let args: Vec<String> = std::env::args().collect();
     let engine = args.get(1).expect("engine name").clone();
-    std::panic::set_hook(Box::new(|_| {}));
+    if std::env::var("MV_PANIC_MSG").is_err() {
+        std::panic::set_hook(Box::new(|_| {}));
+    }
     let stdin = std::io::stdin();
     let stdout = std::io::stdout();
     let mut out = std::io::BufWriter::new(stdout.lock());
